@@ -391,7 +391,9 @@ PURE_HELPERS = {"__ADD", "__LIST", "__TUPLE", "__BLOB", "__VARIANT"}
 
 def irp_order(F, rep, T):
     n = 0
-    for name, s in sorted(T.S.items()):
+    # arms with a guard are templates for some instructions of that kind: what they inline is inlined too
+    guarded = [("%s?guard#%d" % (g[0], i + 1), g[3]) for i, g in enumerate(T.G)]
+    for name, s in sorted(T.S.items()) + guarded:
         if not s["inlinable"]:
             continue
         n += 1
@@ -405,6 +407,8 @@ def irp_order(F, rep, T):
         heap = []
         for x in luaparse.walk(e):
             if x.get("k") == "Index":
+                if x["obj"].get("k") == "Name" and x["obj"]["name"] in ("math", "string", "table") and x.get("dot"):
+                    continue  # a constant of Lua's own library (`math.huge`): no Sylt program can assign to it
                 heap.append("field/index read `%s`" % luaparse.show(x))
             if x.get("k") == "Call":
                 f = luaparse.show(x["f"])
@@ -424,8 +428,13 @@ def irp_order(F, rep, T):
     # operands of inlinable ops are materialised: Copy (variable read) and Call are never inlined
     for name in ("Copy", "Call"):
         s = T.S.get(name)
-        rep.ob("IRP-order", "%s|materialised" % name, bool(s) and not s["inlinable"],
-               "IR::%s is always materialised as a local (a variable read is a snapshot; a call happens where it is written)" % name)
+        some = [g for g in T.G if g[0] == name and g[3]["inlinable"]]
+        rep.ob("IRP-order", "%s|materialised" % name, bool(s) and not s["inlinable"] and not some,
+               "IR::%s is always materialised as a local (a variable read is a snapshot; a call happens where it is written)" % name
+               if bool(s) and not s["inlinable"] and not some else
+               "IR::%s is written where it is *used* for some instructions (%s): a call happens, and a variable is read, at the point "
+               "where the text ends up - behind every statement emitted in between (`(10 + c.tick()) * 2 + c.peek() * 1` calls "
+               "peek() first)" % (name, "the arm guarded by `%s`" % pp(some[0][1])[:80] if some else "its arm routes it through define()"))
 
 
 def irp_late_read(F, rep, T, rule="IRP-order"):
